@@ -185,8 +185,29 @@ def disjoint(q, rs):
                 assert False, ('overlap', q, a, b)
 
 
+EU_POOLS = {
+    'es-es': {'number': (['', 'menos ', 'unos '], ['doce', '1.234,5', 'dos mil trescientos', 'tres cuartos', 'veintiuno', 'un millón', '12']),
+              'currency': (['', '$', 'unos '], ['20 euros', '5 dólares', '3 dólares y 50 centavos', '1.200 pesos', '7 decímetros']),
+              'dimension': (['', 'unos '], ['5 km', 'doce kilómetros', '3 decímetros', '2 metros']),
+              'datetime': (['', 'antes del ', 'desde el ', 'el '], ['5 de mayo de 2019', 'mañana', 'lunes', '3 de la tarde', 'próxima semana', '12/05/2019', 'ayer por la noche'])},
+    'fr-fr': {'number': (['', 'moins ', 'environ '], ['douze', '1.234,5', 'deux mille trois cent', 'trois quarts', 'vingt et un', 'mille cent', '12']),
+              'currency': (['', '$', 'environ '], ['20 euros', '5 dollars', '3 dollars et 50 cents', '7 denar']),
+              'dimension': (['', 'environ '], ['5 km', 'douze kilomètres', '3 decametre', '2 mètres']),
+              'datetime': (['', 'avant le ', 'depuis le ', 'le '], ['5 mai 2019', 'demain', 'lundi', '3 heures', 'la semaine prochaine', '12/05/2019', 'hier soir'])},
+    'pt-br': {'number': (['', 'menos ', 'uns '], ['doze', '1.234,5', 'dois mil e trezentos', 'três quartos', 'vinte e um', '12']),
+              'currency': (['', 'R$ ', 'uns '], ['20 euros', '5 dólares', '3 reais e 50 centavos']),
+              'dimension': (['', 'uns '], ['5 km', 'doze quilômetros', '2 metros']),
+              'datetime': (['', 'antes de ', 'desde ', 'em '], ['5 de maio de 2019', 'amanhã', 'segunda-feira', '3 da tarde', 'próxima semana', '12/05/2019', 'ontem à noite'])},
+    'de-de': {'number': (['', 'minus ', 'etwa '], ['zwölf', '1.234,5', 'zweitausenddreihundert', 'drei viertel', 'einundzwanzig', '12']),
+              'currency': (['', 'etwa '], ['20 euro', '5 dollar', '3 dollar und 50 cent']),
+              'datetime': (['', 'vor dem ', 'seit dem ', 'am '], ['5. mai 2019', 'morgen', 'montag', '15 uhr', 'nächste woche', '12.05.2019', 'gestern abend'])},
+}
 if CULTURE == 'zh-cn':
     POOLS = ZH_POOLS
+elif CULTURE in EU_POOLS:
+    POOLS = EU_POOLS[CULTURE]
+    PADS = ['', 'x ', 'y son ', '(', ' ', 'İ ', '12 ']
+    TAILS = ['', '.', ' ok', ', gracias', ')', ' 12']
 
 
 def build(a, b, c, d):
